@@ -115,15 +115,8 @@ impl<K: Trace + ?Sized, V: Trace> Ephemeron<K, V> {
     }
 }
 
-impl<K: Trace + ?Sized, V: Trace> Finalize for Ephemeron<K, V> {
-    fn finalize(&self) {
-        // SAFETY: inner_ptr should be alive when calling finalize.
-        // We don't call inner_ptr() to avoid overhead of calling finalizer_safe().
-        unsafe {
-            self.inner_ptr.as_ref().dec_ref_count();
-        }
-    }
-}
+// A handle has nothing to finalize, see `Finalize for Gc<T>`.
+impl<K: Trace + ?Sized, V: Trace> Finalize for Ephemeron<K, V> {}
 
 // SAFETY: `Ephemeron`s trace implementation only marks its inner box because we want to stop
 // tracing through weakly held pointers.
@@ -156,8 +149,12 @@ impl<K: Trace + ?Sized, V: Trace> Clone for Ephemeron<K, V> {
 
 impl<K: Trace + ?Sized, V: Trace> Drop for Ephemeron<K, V> {
     fn drop(&mut self) {
+        // While sweeping, the collector has already released the handles inside of the dropped boxes.
         if finalizer_safe() {
-            Finalize::finalize(self);
+            // SAFETY: outside of a sweep, `inner_ptr` is alive as long as this handle exists.
+            unsafe {
+                self.inner_ptr.as_ref().dec_ref_count();
+            }
         }
     }
 }
